@@ -55,6 +55,7 @@ static Json::Value gen() {
         int c = asyncBias ? W({40, 25, 35}) : W({50, 35, 15});
         e["r"] = c == 0 ? "C" : c == 1 ? "S" : "A";
         if (c == 1 && P(PROP == "C05" ? 60 : 30)) e["pause"] = R(0, 20);
+        if (P(12)) e["sleep_ms"] = P(50) ? R(1, 999) : R(1000, 9000);
         scripts["actions"][id].append(e);
       }
     }
